@@ -19,7 +19,8 @@ def parse_pos(tok):
     return tuple(int(v) for v in tok.strip("()").split(","))
 
 
-def walk_sim(case, par, chooser, max_steps=20000):
+def walk_sim(case, par, chooser, max_steps=20000, pyr=None):
+    """one simulated parallel walk; `pyr`: walk this Pyramid object (again) instead of a freshly built one"""
     log = []
 
     def cb(pos):
@@ -30,7 +31,7 @@ def walk_sim(case, par, chooser, max_steps=20000):
         log.append(("E", t))
 
     def job():
-        case.build().walk(cb, parallel=par)
+        (pyr if pyr is not None else case.build()).walk(cb, parallel=par)
     sim = simmp.simulate(job, chooser, max_steps=max_steps, hang_window=300)
     return sim, log
 
@@ -214,6 +215,30 @@ def main():
         if bad1 or bad2:
             h.violation("parallel:history", f"walk of [{first.line()}] (2 workers) and then of the full pyramid [{second.line()}] ({par2} workers) in one process: {'first walk: ' + bad1 if bad1 else 'second walk: ' + bad2}",
                         input={"first": first.line(), "second": second.line(), "workers": par2, "choices": sim2.choices[:600], "trace": sim2.trace[:150]}, observed=bad1 or bad2)
+    # ---- the SAME Pyramid object walked twice (whatever the first walk prepared or consumed must not be reused half-spent):
+    # pyramids in which some live parent has a dead child, and sub-pyramids
+    def has_dead_child(c):
+        ops = c.spec()[2]
+        return any((p[0] + 1, 2 * p[1] + dx, 2 * p[2] + dy) not in ops and p[0] + 1 < c.depth for p in ops for dx in (0, 1) for dy in (0, 1))
+    twice = ([c for c in cases if len(c.spec()[2]) >= 2 and has_dead_child(c)][: (8 if h.deep else 3)]
+             + [c for c in cases if c.spec()[2] and c.apex][: (4 if h.deep else 1)])
+    for c in twice:
+        try:
+            obj = c.build()
+            sim1, log1 = walk_sim(c, 2, simmp.RandomChooser(rng.randrange(2 ** 31), timeout_weight=0.05), pyr=obj)
+            sim2, log2 = walk_sim(c, rng.choice([2, 3]), simmp.RandomChooser(rng.randrange(2 ** 31), timeout_weight=0.05), pyr=obj)
+        except Exception as e:
+            h.violation("parallel:twice", f"walking one Pyramid object [{c.line()}] twice raised {type(e).__name__}: {e}", input={"pyramid": c.line()})
+            continue
+        h.case(("twice", c.key(), tuple(sim2.choices)))
+        h.count("mode", "sim-same-object-twice")
+        for which, (sm, lg) in (("first", (sim1, log1)), ("second", (sim2, log2))):
+            what = sm.outcome + (f": {type(sm.main.exc).__name__}: {sm.main.exc}" if sm.main.exc is not None else "")
+            bad = judge_log(c, lg, sm.outcome == "ok", what)
+            if bad:
+                h.violation("parallel:twice", f"one Pyramid object [{c.line()}] walked twice in parallel: the {which} walk: {bad}",
+                            input={"pyramid": c.line(), "which": which, "choices": sm.choices[:600], "trace": sm.trace[:150]}, observed=bad)
+                break
     # ---- simulated parallel walks
     nsim = 500 if h.deep else 130
     pool = [c for c in cases if c.spec()[2]]
